@@ -86,6 +86,9 @@ pub struct Knobs {
     pub policy: PolicyCfg,
     pub sched_seed: u64,
     pub tokio_seed: u64,
+    /// Start value of std's hash keys on the run's thread (iteration order of the product's HashMaps).
+    #[serde(default)]
+    pub hash_seed: u64,
     /// Run with a (recording) store.
     pub persistent: bool,
     /// Capacity of the channels handed to the agent for outgoing commands.
@@ -267,6 +270,7 @@ pub fn generate(seed: u64, focus: &str, _tier: Tier) -> AgentScenario {
         policy,
         sched_seed: root.sub("sched").next_u64(),
         tokio_seed: root.sub("tokio").next_u64(),
+        hash_seed: root.sub("hash").next_u64() | 1,
         persistent: focus != "C04F" && (focus == "C05" || g.rng.chance(1, 3)),
         target_cap: *g.rng.pick(&[8u32, 16, 32, 64, 4096]),
         target_read: gen_read(&mut g.rng, true),
